@@ -40,6 +40,10 @@ def is_divisible_by_16_kib(num):
         return False
     return num % 16384 == 0
 
+def is_non_negative(num):
+    """Return whether `num` is 0 or larger"""
+    return num >= 0
+
 def iterable_startswith(a, b):
     a_len = len(a)
     for i, b_item in enumerate(b):
